@@ -24,7 +24,7 @@ import (
 func init() {
 	Registry["C11"] = &Check{
 		Scenarios: c11Scenarios,
-		Rule: "every CER over Origin-Host {absent, present} x Origin-Realm {absent, present} x Inband-Security-Id {absent, 0, 1, 2^31-1} x every sequence (so every order) of <=2 (thorough 3) application AVPs over 18 atoms: Acct-Application-Id {3 supported, 4 wrong type, 999 unsupported, relay}, Auth-Application-Id {4, 3 wrong type, 999, relay}, Vendor-Specific-Application-Id groups {[Vendor-Id, Auth 4], [Auth 999, Vendor-Id], [Vendor-Id, Auth 999], [Vendor-Id, Acct 3], [Vendor-Id], [Auth 16777251], [Acct 999], [Auth 4, Auth 999], [Auth 999, Auth 4], []}; settings with and without configured HostIPAddresses; local endpoint 10.1.2.3 and loopback; hop-by-hop / end-to-end ids rotate over {0,1,2^31,2^32-1}. Each CER is sent end-to-end, on a connection of its own, to ONE state machine per scenario (so a verdict that depends on earlier CERs is caught; the visiting order alternates rich and poor CERs) over the in-memory transport, followed by an RAR whose gated handler reads the connection metadata. One deterministic schedule per CER (the quantifier is over inputs).",
+		Rule: "every CER over Origin-Host {absent, present} x Origin-Realm {absent, present} x Inband-Security-Id {absent, 0, 1, 2^31-1} x every sequence (so every order) of <=2 (thorough 3) application AVPs over 18 atoms: Acct-Application-Id {3 supported, 4 wrong type, 999 unsupported, relay}, Auth-Application-Id {4, 3 wrong type, 999, relay}, Vendor-Specific-Application-Id groups {[Vendor-Id, Auth 4], [Auth 999, Vendor-Id], [Vendor-Id, Auth 999], [Vendor-Id, Acct 3], [Vendor-Id], [Auth 16777251], [Acct 999], [Auth 4, Auth 999], [Auth 999, Auth 4], []}; settings with and without configured HostIPAddresses; local endpoint over {10.1.2.3, loopback, an IPv6 address in brackets, a multihomed SCTP endpoint 127.0.0.1/10.1.2.3/[2001:db8::7]}; hop-by-hop / end-to-end ids rotate over {0,1,2^31,2^32-1}. Each CER is sent end-to-end, on a connection of its own, to ONE state machine per scenario (so a verdict that depends on earlier CERs is caught; the visiting order alternates rich and poor CERs) over the in-memory transport, followed by an RAR whose gated handler reads the connection metadata. One deterministic schedule per CER (the quantifier is over inputs).",
 		Assume: []string{"reference acceptance predicate written from the statement, with application support read from the independent refdict model of the embedded XML", "single default schedule per input"},
 		QuickBudget: 120, ThoroughBudget: 1800,
 	}
@@ -96,9 +96,12 @@ func c11Scenarios(tier string) []*Scenario {
 		for _, realm := range []bool{true, false} {
 			for _, inband := range []int{-1, 0, 1, 0x7fffffff} {
 				for _, cfgIP := range []bool{true, false} {
-					for _, loop := range []bool{false, true} {
+					for loop := 0; loop < len(c11Locals); loop++ {
+						if cfgIP && loop >= 2 {
+							continue // with configured addresses the local endpoint is not consulted
+						}
 						host, realm, inband, cfgIP, loop := host, realm, inband, cfgIP, loop
-						out = append(out, &Scenario{Name: fmt.Sprintf("cer/host=%v/realm=%v/inband=%d/configuredIP=%v/loopback=%v", host, realm, inband, cfgIP, loop),
+						out = append(out, &Scenario{Name: fmt.Sprintf("cer/host=%v/realm=%v/inband=%d/configuredIP=%v/local=%s", host, realm, inband, cfgIP, c11Locals[loop].addr),
 							Seq: func(r *SeqResult) { c11Run(r, host, realm, inband, cfgIP, loop, maxN) }})
 					}
 				}
@@ -108,7 +111,41 @@ func c11Scenarios(tier string) []*Scenario {
 	return out
 }
 
-func c11Run(r *SeqResult, host, realm bool, inband int, cfgIP, loop bool, maxN int) {
+// c11Locals are the local endpoints of the server's connection: a plain IPv4 address, loopback,
+// an IPv6 address as net.TCPAddr prints it, and a multihomed SCTP endpoint as the sctp package
+// prints it (loopback members are skipped when another address exists).
+var c11Locals = []struct {
+	addr string
+	want [][]byte
+}{
+	{"10.1.2.3:3868", [][]byte{refcodec.Address(1, []byte{10, 1, 2, 3})}},
+	{"127.0.0.1:3868", [][]byte{refcodec.Address(1, []byte{127, 0, 0, 1})}},
+	{"[2001:db8::7]:3868", [][]byte{refcodec.Address(2, net.ParseIP("2001:db8::7").To16())}},
+	{"127.0.0.1/10.1.2.3/[2001:db8::7]:3868", [][]byte{refcodec.Address(1, []byte{127, 0, 0, 1}), refcodec.Address(1, []byte{10, 1, 2, 3}), refcodec.Address(2, net.ParseIP("2001:db8::7").To16())}},
+}
+
+// c11AddrSubset: got is a non-empty, duplicate-free list of addresses of the local endpoint.
+func c11AddrSubset(got, endpoint [][]byte) bool {
+	if len(got) == 0 {
+		return false
+	}
+	seen := map[string]bool{}
+	for _, g := range got {
+		ok := false
+		for _, e := range endpoint {
+			if bytes.Equal(g, e) {
+				ok = true
+			}
+		}
+		if !ok || seen[string(g)] {
+			return false
+		}
+		seen[string(g)] = true
+	}
+	return true
+}
+
+func c11Run(r *SeqResult, host, realm bool, inband int, cfgIP bool, loop int, maxN int) {
 	atoms := c11Atoms()
 	var seqs [][]int
 	var rec func(cur []int)
@@ -179,9 +216,7 @@ func c11Run(r *SeqResult, host, realm bool, inband int, cfgIP, loop bool, maxN i
 		s := vs.Run(nil, false, 5*time.Second, false, func() {
 			conn := vnet.NewConn("S")
 			conn.Pieces = 1
-			if loop {
-				conn.Local = vnet.Addr{S: "127.0.0.1:3868"}
-			}
+			conn.Local = vnet.Addr{S: c11Locals[loop].addr}
 			curMeta, curSeen = &meta, &metaSeen
 			if _, err := diam.NewConn(conn, "peer", mach, dict.Default); err != nil {
 				return
@@ -213,10 +248,7 @@ func c11Run(r *SeqResult, host, realm bool, inband int, cfgIP, loop bool, maxN i
 			if x := cea.Find(268); x != nil && len(x.Payload) == 4 {
 				rc = uint32(x.Payload[0])<<24 | uint32(x.Payload[1])<<16 | uint32(x.Payload[2])<<8 | uint32(x.Payload[3])
 			}
-			wantIP := [][]byte{refcodec.Address(1, []byte{10, 1, 2, 3})}
-			if loop {
-				wantIP = [][]byte{refcodec.Address(1, []byte{127, 0, 0, 1})}
-			}
+			wantIP := c11Locals[loop].want
 			if cfgIP {
 				wantIP = [][]byte{refcodec.Address(1, []byte{192, 0, 2, 7}), refcodec.Address(1, []byte{192, 0, 2, 8})}
 			}
@@ -231,8 +263,8 @@ func c11Run(r *SeqResult, host, realm bool, inband int, cfgIP, loop bool, maxN i
 				v = fmt.Sprintf("CEA ids %#x/%#x, request ids %#x/%#x", cea.Hdr.HbH, cea.Hdr.E2E, hbh, ee)
 			case cea.Find(264) == nil || string(cea.Find(264).Payload) != "srv.local" || cea.Find(296) == nil || string(cea.Find(296).Payload) != "local":
 				v = "CEA does not carry the identity from the local settings"
-			case fmt.Sprint(gotIP) != fmt.Sprint(wantIP):
-				v = fmt.Sprintf("CEA Host-IP-Address %x, expected %x (configured addresses, else the local endpoint)", gotIP, wantIP)
+			case cfgIP && fmt.Sprint(gotIP) != fmt.Sprint(wantIP), !cfgIP && !c11AddrSubset(gotIP, wantIP):
+				v = fmt.Sprintf("CEA Host-IP-Address %x, expected %x (exactly the configured addresses, else one or more addresses of the local endpoint)", gotIP, wantIP)
 			case accept && rc != 2001:
 				v = fmt.Sprintf("the CER names host and realm, requires no in-band security and shares application(s) %v, but the Result-Code is %d", keys(shared), rc)
 			case accept && closed:
@@ -288,8 +320,8 @@ func c11Run(r *SeqResult, host, realm bool, inband int, cfgIP, loop bool, maxN i
 			}
 		}
 		if v != "" {
-			r.Violation = fmt.Sprintf("%s | CER: Origin-Host=%v Origin-Realm=%v Inband-Security-Id=%d application AVPs %v, configured addresses=%v loopback=%v", v, host, realm, inband, names, cfgIP, loop)
-			r.Case = map[string]interface{}{"host": host, "realm": realm, "inband": inband, "apps": names, "cfgIP": cfgIP, "loop": loop}
+			r.Violation = fmt.Sprintf("%s | CER: Origin-Host=%v Origin-Realm=%v Inband-Security-Id=%d application AVPs %v, configured addresses=%v local endpoint=%s", v, host, realm, inband, names, cfgIP, c11Locals[loop].addr)
+			r.Case = map[string]interface{}{"host": host, "realm": realm, "inband": inband, "apps": names, "cfgIP": cfgIP, "local": c11Locals[loop].addr}
 		}
 	}
 }
